@@ -44,6 +44,7 @@ type Run struct {
 	Class  []string // measured expiry class per step: "" | "fresh" | "expired"
 
 	lateEffect bool
+	Truncated  bool // stopped before the behaviour's end for a reason that is itself reported
 }
 
 // preState: the harness' picture of the connection before a step, built from observations only
@@ -139,7 +140,7 @@ func runBehaviour(d *Daemon, b *Behaviour, prefix string, random bool, lenient b
 			if random {
 				break
 			}
-			r.Void = "model continues after the real connection closed"
+			r.Truncated = true
 			r.Drift = append(r.Drift, fmt.Sprintf("step %d %s: spec continues but the real connection is closed", i, s.C.Op))
 			break
 		}
@@ -309,6 +310,12 @@ func runBehaviour(d *Daemon, b *Behaviour, prefix string, random bool, lenient b
 				intended = "expired"
 			}
 			if class != intended {
+				if len(r.Viol) > 0 {
+					// an earlier step of this attempt already broke a property (e.g. no re-fetch, so the harness'
+					// and the daemon's idea of the cached answer differ from here on): report that, stop here
+					r.Truncated = true
+					break
+				}
 				r.Void = fmt.Sprintf("step %d %s: timing: wanted the cached answer %s, measured %s", i, s.C.Op, intended, class)
 				return r
 			}
